@@ -52,6 +52,14 @@ def main():
     for s in free:
         cases.append({"op": "parse_unit", "s": s, "snap": True}); cases.append({"op": "parse_quantity", "s": s, "snap": True})
     r = C13.parse_worker({"cases": cases})["results"]
+    # the extreme exponents once more, each as the first thing a fresh process parses (in the long run above an earlier text may already have left
+    # behind whatever makes the second parse of a later one differ from its first)
+    ext = ["kB^1" + "0" * 308, "kB^-1" + "0" * 308, "5 MB^1" + "0" * 308, "GB^9" + "0" * 307 + "/s", "m^" + "9" * 5000, "KiB km^3" + "0" * 307]
+    for s_ in ext:
+        xc = [{"op": "parse_unit", "s": s_, "snap": True}, {"op": "parse_quantity", "s": "5 " + s_ if not s_[0].isdigit() else s_, "snap": True}]
+        cases_x = xc
+        rx = C13.parse_worker({"cases": cases_x})["results"]
+        cases += cases_x; r += rx
     # ---------------- the property on the implementation
     stats = {"accepted": 0, "ParseError": 0, "KeyError": 0}
     for cs, x in zip(cases, r):
